@@ -650,6 +650,27 @@ func (c *handlerCtx) handleReply() {
 	}
 }
 
+// abortReply completes the call that bindReply bound to this context when the
+// read loop ends before handleReply can run (reply body undecodable with no body
+// codec, session no longer reading, panic while decoding): the caller gets an error
+// status and the call's mutex taken in bindReply is released.
+func (c *handlerCtx) abortReply(err error) {
+	if c.callCmd == nil {
+		return
+	}
+	if c.callCmd.stat.OK() {
+		if err != nil {
+			c.callCmd.stat = statBadMessage.Copy(err)
+		} else {
+			c.callCmd.stat = statConnClosed
+		}
+	}
+	c.callCmd.done()
+	// lock: bindReply
+	c.callCmd.mu.Unlock()
+	c.callCmd = nil
+}
+
 // StatusOK returns the handle status is OK or not.
 func (c *handlerCtx) StatusOK() bool {
 	return c.stat.OK()
